@@ -89,8 +89,16 @@ JudgeMdCb(s, e) ==
   ELSE IF e.mode = "scan" \/ ~Indexable(s.f) THEN (IF e.mds \in {s.f.nMd, s.f.nMdIdx} THEN {} ELSE {"C02/MetadataCallback"})
   ELSE (IF e.mds = s.f.nMdIdx THEN {} ELSE {"C02/MetadataCallback"})
 
+(* implementation layer (ReadDecision.tla): the read carries the model's prediction of its outcome class and of the
+   iterator that serves it; a disagreement is drift, never a verdict *)
+DecisionDrift(s, e) ==
+  IF ~("predClass" \in DOMAIN e) THEN {}
+  ELSE LET obs == IF Ended(e) \in {"error", "openerror"} THEN "error" ELSE IF Len(e.ids) = Len(s.f.msgs) THEN "exact" ELSE "fewer"
+           via == IF Ended(e) = "openerror" THEN "none" ELSE IF e.indexed THEN "index" ELSE "scan" IN
+       IF obs = e.predClass /\ via = e.predVia THEN {} ELSE {"DRIFT/ReadDecision/" \o e.dmode}
+
 Judge(s, e) ==
-  CASE e.ev = "Read" /\ s.f # <<>> -> JudgeRead(s, e) \cup JudgeMdCb(s, e)
+  CASE e.ev = "Read" /\ s.f # <<>> -> JudgeRead(s, e) \cup JudgeMdCb(s, e) \cup DecisionDrift(s, e)
     [] e.ev = "Info" /\ s.f # <<>> -> JudgeInfo(s, e)
     [] e.ev = "Stream" -> JudgeStream(e)
     [] OTHER -> {}
